@@ -12,19 +12,23 @@ use serde_json::json;
 pub fn run_bss(args: &Args, sink: &mut Sink, rng: &mut Rng) {
     const REQ: &str = "Common.Base Codec.Model_Bytes Codec.Model_Bss";
     let mut s_enc = Stream::new("bss_encode", REQ, "chk_bss_encode", "N * list N", "outcome (list (list N) * list chunk)");
+    let mut b_enc = Budget::new(args, 90);
     s_enc.shard = 8;
     let mut s_dec = Stream::new("bss_decode", REQ, "chk_bss_decode", "N * list (list N) * N", "outcome (list N)");
+    let mut b_dec = Budget::new(args, 40);
     s_dec.shard = 10;
     let mut cases: Vec<(usize, usize)> = vec![];
     for w in [4usize, 8] {
         let m = if w == 4 { 1024 } else { 512 };
-        for n in [1usize, 2, 3, m - 1, m, m + 1, 2 * m + 1] {
+        // quick: one multi-chunk case per width (m+1 values); thorough: all the edges
+        let edges: Vec<usize> = if args.thorough() { vec![1, 2, 3, m - 1, m, m + 1, 2 * m + 1] } else if w == 4 { vec![1, 3, m] } else { vec![1, 2, m + 1] };
+        for n in edges {
             cases.push((w, n));
         }
     }
-    for _ in 0..args.vol(14, 400) {
+    for _ in 0..args.vol(16, 400) {
         let w = *rng.pick(&[4usize, 8]);
-        let n = if rng.chance(2, 3) { rng.range(1, 200) as usize } else { pick_len(rng, if args.thorough() { 5000 } else { 1300 }) };
+        let n = if rng.chance(5, 6) || !args.thorough() { rng.range(1, 160) as usize } else { pick_len(rng, 5000) };
         cases.push((w, n));
     }
     for (w, n) in cases {
@@ -43,7 +47,7 @@ pub fn run_bss(args: &Args, sink: &mut Sink, rng: &mut Rng) {
             Ok(Err(_)) => Err(false),
             Err(_) => Err(true),
         };
-        s_enc.push(format!("({}, {})", w, coq::bytes(&bytes)), coq::outcome(&out), human.clone());
+        b_enc.push(&mut s_enc, format!("({}, {})", w, coq::bytes(&bytes)), coq::outcome(&out), human.clone());
         match &r {
             Ok(Ok((c, _))) => {
                 let breach = chunk_limit_breach(c, true);
@@ -74,7 +78,7 @@ pub fn run_bss(args: &Args, sink: &mut Sink, rng: &mut Rng) {
                             Ok(Ok(_)) | Ok(Err(_)) => Err(false),
                             Err(_) => Err(true),
                         };
-                        s_dec.push(format!("({}, {}, {})", w, coq_bufs(&bufs), nreq), coq::outcome(&o), json!({"codec": "bss-decode", "w": w, "n": nreq}));
+                        b_dec.push(&mut s_dec, format!("({}, {}, {})", w, coq_bufs(&bufs), nreq), coq::outcome(&o), json!({"codec": "bss-decode", "w": w, "n": nreq}));
                     }
                 }
             }
@@ -88,8 +92,10 @@ pub fn run_bss(args: &Args, sink: &mut Sink, rng: &mut Rng) {
 pub fn run_bytepack(args: &Args, sink: &mut Sink, rng: &mut Rng) {
     const REQ: &str = "Common.Base Codec.Model_Bytes Codec.Model_BytePack";
     let mut s_p = Stream::new("bytepack_pack", REQ, "chk_bp_pack", "N * list N", "list N");
+    let mut b_p = Budget::new(args, 40);
     s_p.shard = 60;
     let mut s_u = Stream::new("bytepack_unpack", REQ, "chk_bp_unpack", "N * list N", "outcome (list N)");
+    let mut b_u = Budget::new(args, 60);
     s_u.shard = 60;
     let edges: [u64; 14] = [0, 1, 2, 254, 255, 256, 65534, 65535, 65536, u32::MAX as u64 - 1, u32::MAX as u64, u32::MAX as u64 + 1, u64::MAX - 1, u64::MAX];
     let mut maxes: Vec<u64> = edges.to_vec();
@@ -127,7 +133,7 @@ pub fn run_bytepack(args: &Args, sink: &mut Sink, rng: &mut Rng) {
         let human = json!({"codec": "bytepack", "max": max, "vals": vals, "in_domain": in_domain});
         sink.count(if in_domain { "bytepack:in-domain" } else { "bytepack:truncating" });
         sink.nontrivial(&format!("bp:{max}:{:?}", vals));
-        s_p.push(format!("({}, {})", max, nlist(&vals)), coq::bytes(&data), human.clone());
+        b_p.push(&mut s_p, format!("({}, {})", max, nlist(&vals)), coq::bytes(&data), human.clone());
         // oracle: unpack returns the values (width chosen from max); Zero means "no data"
         if in_domain {
             let width = if max == 0 { 0 } else if max <= 0xFF { 1 } else if max <= 0xFFFF { 2 } else if max <= 0xFFFF_FFFF { 4 } else { 8 };
@@ -161,7 +167,7 @@ pub fn run_bytepack(args: &Args, sink: &mut Sink, rng: &mut Rng) {
                     Err(_) => Err(true),
                 };
                 sink.count("bytepack:unpack-case");
-                s_u.push(format!("({}, {})", size, coq::bytes(&d)), coq::outcome(&o), json!({"codec": "byteunpack", "size": size, "len": d.len()}));
+                b_u.push(&mut s_u, format!("({}, {})", size, coq::bytes(&d)), coq::outcome(&o), json!({"codec": "byteunpack", "size": size, "len": d.len()}));
             }
         }
     }
@@ -172,6 +178,7 @@ pub fn run_bytepack(args: &Args, sink: &mut Sink, rng: &mut Rng) {
 pub fn run_value(args: &Args, sink: &mut Sink, rng: &mut Rng) {
     const REQ: &str = "Common.Base Codec.Model_Bytes Codec.Model_Value";
     let mut s = Stream::new("value_chunks", REQ, "chk_value_chunks", "N * N * N", "outcome (list chunk)");
+    let mut b_s = Budget::new(args, 90);
     s.shard = 200;
     // every bit width that can reach the value encoder: sub-byte (bool / FSL<bool>), bytes, wide FSL
     let mut bitss: Vec<u64> = vec![1, 2, 3, 4, 5, 7, 8, 16, 24, 32, 40, 48, 64, 96, 128, 160, 256, 512, 1024, 2048, 4096, 8192, 16384, 24 * 1024, 32 * 1024, 32744, 32752];
@@ -211,7 +218,7 @@ pub fn run_value(args: &Args, sink: &mut Sink, rng: &mut Rng) {
                 Ok(Err(_)) => Err(false),
                 Err(_) => Err(true),
             };
-            s.push(format!("({}, {}, {})", bits, n, len), coq::outcome(&out), human.clone());
+            b_s.push(&mut s, format!("({}, {}, {})", bits, n, len), coq::outcome(&out), human.clone());
             if let Ok(Ok((c, encoding))) = &r {
                 // oracle: buffer untouched, limits hold, chunk-by-chunk decode gives the bytes back
                 let same = c.data.len() == 1 && c.data[0].as_ref() == bytes.as_slice() && c.num_values == n;
